@@ -190,6 +190,11 @@ inline std::string digestTwin(const std::vector<std::string>& names, Rng& r, siz
 		{"3=90-&", "=4=#6;"}, {"66$396", "2;~3~("}, {",3)8_5", "&6;!7%"}, {"%,2((5", ";40#20"}, {"8%9(#)", "$!),35"}, {"3,$-_,", "-!=#65"},
 		{",2&&00", "$5974_"}, {",14&85", ",5;7~_"}, {"49(598", "$12#07"}, {"$12~~!", "&99#67"}, {"+5-5))", "#)_45~"}, {"$4));!", "3;8#=4"},
 		{"8%&#~1", "2#5478"}, {"-5;&0,", "6$&;9)"}, {";,019#", "+#0,9%"}, {"57!~5,", "9$08_,"}, {",01419", "-0$-+&"}, {"$+$39$", "4,;90;"},
+		// FNV-1a-32 and FNV-1-32 of "./" + name (a normalised spelling)
+		{"=143-~", "27&7);"}, {")48=-3", ")4$474"}, {"#!2;$(", "!0+3=7"}, {"$&080=", "675+=)"}, {"~1443$", "~-#04$"}, {"8(~8;;", "($;)97"},
+		{"2==3&7", "~92!)="}, {"$&44&)", "67173="}, {")65(++", "447~~5"}, {"5;6$8&", "95,-83"},
+		{")$,-!$", "#!5+4="}, {",#7#97", "3$$5;8"}, {"~&1=(=", "&=,#+6"}, {"(#&;$+", "#8($($"}, {"$+2+8-", ",16),5"}, {"60;#8,", "897,+1"},
+		{"9=108-", "9=-#,&"}, {"7-!7;;", "9,5(&$"}, {"6-70&;", "$28737"}, {"8#524-", "4-#340"},
 		// h*31+c, h*33+c, byte sum / xor
 		{"1_", "2@"}, {"1~", "2_"}, {"7_", "8@"}, {"1_", "2>"}, {"1~", "2]"}, {"5_", "6>"}, {"19", "91"}, {"3-7", "7-3"},
 	};
